@@ -139,6 +139,9 @@ type c20Case struct {
 
 	retires    map[int]*c20Retire // by generation being retired (c.mu)
 	wedgeNote  string
+	stormGap   time.Duration // while draining: a signal every stormGap during a readiness wait
+	inWait     bool          // main loop is inside waitReloadReadyOrSignal
+	waitSigs   int           // signals delivered during the current readiness wait
 	sessSeq    int
 
 	hmu        sync.Mutex
@@ -467,7 +470,26 @@ func (c *c20Case) serveStage() {
 	c.hmu.Unlock()
 	c.wg.Add(1)
 	go c20Serve(c, n, readyChan)
+	c.mu.Lock()
+	c.inWait, c.waitSigs = true, 0
+	c.mu.Unlock()
+	waitT0 := time.Now()
 	waitResult, termSig := waitReloadReadyOrSignal(c20Log, c.sigs, readyChan, reloadReadyTimeout)
+	c.mu.Lock()
+	c.inWait = false
+	if waited := time.Since(waitT0); waited > reloadReadyTimeout {
+		c.violate("the main loop waited %v for the new generation to become ready (%d reload/suspend signals arrived meanwhile); the bound is %v whatever arrives",
+			waited, c.waitSigs, reloadReadyTimeout)
+	}
+	if c.waitSigs > 0 {
+		switch waitResult {
+		case reloadReadyWaitTimeout:
+			c.class("ready_wait_timed_out_with_signals_arriving")
+		case reloadReadyWaitReady:
+			c.class("ready_wait_ready_with_signals_arriving")
+		}
+	}
+	c.mu.Unlock()
 	// reload/suspend signals that arrived during the wait were consumed and ignored
 	c.mu.Lock()
 	if c.pendingSig != nil && len(c.sigs) == 0 {
@@ -853,6 +875,9 @@ func (c *c20Case) deliver(r *c20Req) bool {
 	}
 	c.pendingSig = r
 	c.foreign++
+	if c.inWait {
+		c.waitSigs++
+	}
 	c.mu.Unlock()
 	sig := syscall.SIGUSR1
 	if r.suspend {
@@ -958,7 +983,7 @@ var c20GateOutcomes = map[string][]int{
 	"W:2-build":    {0, 4, 4, 1, 2},
 	"W:3-listener": {0, 0, 0, 1},
 	"W:3-listen":   {0, 0, 0, 1},
-	"S:serve":      {0, 0, 0, 0, 1, 2},
+	"S:serve":      {0, 0, 0, 1, 2, 2},
 }
 
 func c20GateKey(label string) string {
@@ -993,6 +1018,7 @@ func (c *c20Case) releaseStep(rt *rapid.T, p *c20Park, forceOK bool) {
 // successful outcomes), timers fire. Returns false if no quiescence is reached.
 func (c *c20Case) drain(rt *rapid.T, pause time.Duration) bool {
 	idle := 0
+	var idleFor time.Duration
 	for i := 0; i < 2000; i++ {
 		synctest.Wait()
 		c.invariants()
@@ -1017,20 +1043,33 @@ func (c *c20Case) drain(rt *rapid.T, pause time.Duration) bool {
 				synctest.Wait()
 			}
 			c.releaseStep(rt, ps[0], true)
-			idle = 0
+			idle, idleFor = 0, 0
 			continue
 		}
 		if !c.busy() {
 			return true
 		}
-		idle++
-		if idle > 12 {
-			return false
-		}
+		step := reloadReadyTimeout + time.Second
 		c.mu.Lock()
 		c.foreign++
+		storm := c.stormGap > 0 && c.inWait
 		c.mu.Unlock()
-		time.Sleep(reloadReadyTimeout + time.Second)
+		if storm {
+			// reload/suspend signals keep arriving, less than the readiness timeout
+			// apart, while the main loop waits for a generation that does not get ready
+			r := c.newReq(idle%2 == 1, "storm")
+			c.deliver(r)
+			c.mu.Lock()
+			c.actions = append(c.actions, fmt.Sprintf("storm(#%d)", r.id))
+			c.mu.Unlock()
+			step = c.stormGap
+		}
+		idle++
+		idleFor += step
+		if idleFor > 12*(reloadReadyTimeout+time.Second) {
+			return false
+		}
+		time.Sleep(step)
 	}
 	return false
 }
@@ -1097,6 +1136,7 @@ func c20RunProtocolCase(t *testing.T, rt *rapid.T, dir string) {
 
 func c20RunProtocolBubble(t *testing.T, rt *rapid.T, c *c20Case, nSteps int, failureP *string, wedgedP *bool) {
 	firstSession := rapid.Bool().Draw(rt, "firstSession")
+	c.stormGap = rapid.SampledFrom([]time.Duration{0, 10 * time.Second, 30 * time.Second, 44 * time.Second, reloadReadyTimeout - time.Nanosecond}).Draw(rt, "stormGap")
 	finalPause := rapid.SampledFrom([]time.Duration{0, 0, 3 * time.Second, 11 * time.Second, 11 * time.Second}).Draw(rt, "finalPause")
 	var failure string
 	var wedged bool
